@@ -1,23 +1,20 @@
 #!/bin/bash
-# run_seed.sh <seed-name> <property> [tier] : apply a seeded change to /repo, run the check, undo.
-# The evidence file and replays of the property are saved before and restored after,
-# so that what is committed always comes from the unchanged tree.
+# run_seed.sh <seed-name> <property> [tier] : run a check against a scratch worktree of
+# /repo with the seeded change applied. /repo itself and /verif/evidence are not touched:
+# the engine is pointed at the worktree (VERIF_REPO) and at a scratch copy of /verif
+# (VERIF_DIR) for its evidence and replay files.
 set -u
 S=$1; P=$2; T=${3:-quick}
-cd /verif
-if ! git -C /repo diff --quiet; then echo "/repo has uncommitted changes"; exit 2; fi
-git -C /repo apply /verif/seeded/$S/patch.diff || { echo "patch failed"; exit 2; }
-bk=$(mktemp -d)
-[ -f evidence/$P.json ] && cp evidence/$P.json $bk/
-[ -d replays/$P ] && cp -r replays/$P $bk/replays
-timeout 3600 bin/gosym check -p $P -tier $T > /tmp/seedrun_$S.out 2>/tmp/seedrun_$S.err; rc=$?
-git -C /repo checkout -- .
-mkdir -p seeded/$S/detected_by && rm -f seeded/$S/detected_by/$P-*.json
-if [ $rc -eq 1 ] && [ -d replays/$P ]; then cp replays/$P/*.json seeded/$S/detected_by/ 2>/dev/null; for f in seeded/$S/detected_by/*.json; do [ -f "$f" ] && mv "$f" "seeded/$S/detected_by/$P-$(basename $f)"; done; fi
-rmdir seeded/$S/detected_by 2>/dev/null
-rm -rf replays/$P; [ -d $bk/replays ] && cp -r $bk/replays replays/$P
-[ -f $bk/$P.json ] && cp $bk/$P.json evidence/$P.json
-rm -rf $bk
+W=$(mktemp -d /tmp/seedwt.XXXXXX); V=$(mktemp -d /tmp/seedvf.XXXXXX)
+cleanup() { git -C /repo worktree remove --force $W/repo 2>/dev/null; rm -rf $W $V; git -C /repo worktree prune; }
+trap cleanup EXIT
+git -C /repo worktree add -q --detach $W/repo HEAD || { echo "worktree failed"; exit 2; }
+git -C $W/repo apply /verif/seeded/$S/patch.diff || { echo "patch failed"; exit 2; }
+rsync -a --exclude .git --exclude evidence --exclude replays --exclude seeded /verif/ $V/
+mkdir -p $V/evidence $V/replays
+VERIF_REPO=$W/repo VERIF_DIR=$V timeout 3600 /verif/bin/gosym check -p $P -tier $T > /tmp/seedrun_$S.out 2>/tmp/seedrun_$S.err; rc=$?
+rm -rf /verif/seeded/$S/detected_by_$P; 
+if [ $rc -eq 1 ] && [ -d $V/replays/$P ]; then mkdir -p /verif/seeded/$S/detected_by_$P && cp $V/replays/$P/*.json /verif/seeded/$S/detected_by_$P/ 2>/dev/null; fi
 echo "seed=$S property=$P tier=$T exit=$rc"
 grep -E "^(VIOLATION|KNOWN-FINDING)" /tmp/seedrun_$S.out | cut -c1-300
 grep -c "^INCONCLUSIVE" /tmp/seedrun_$S.out | sed 's/^/inconclusive lines: /'
